@@ -81,7 +81,7 @@ Lemma local_name_inj bag a b :
   local_name bag a = local_name bag b -> a = b.
 Proof.
   unfold local_name. intros Ha Hb.
-  destruct (mem a bag), (mem b bag); intros H.
+  destruct (mem a bag || mem a EMITTED_KEYWORDS), (mem b bag || mem b EMITTED_KEYWORDS); intros H.
   - apply app_inv_head in H. exact H.
   - exfalso. subst b. vm_compute in Hb. discriminate.
   - exfalso. subst a. vm_compute in Ha. discriminate.
